@@ -641,3 +641,14 @@ where
         let _ = self.inner.streams.recv_eof(true);
     }
 }
+
+#[cfg(feature = "verif")]
+impl<T, P, B> Connection<T, P, B>
+where
+    P: Peer,
+    B: Buf + 'static,
+{
+    pub(crate) fn verif_probe(&self) -> crate::proto::VerifProbe {
+        self.inner.streams.verif_probe()
+    }
+}
